@@ -27,6 +27,14 @@ func NewH264Packetizer(meta *codec.VideoMeta, tsframeWriter FrameWriter) Packeti
 func (h264p *h264Packetizer) Packetize(frame *codec.Frame) error {
 	nalType := frame.Payload[0] & 0x1F
 
+	// 7-9 (in-band SPS/PPS/AUD), ignore, @see: ngx_rtmp_hls_video.
+	// prepareAvcHeader leaves their header empty (no start code), so writing them
+	// would put a bare NAL unit into the elementary stream; the stream's SPS/PPS
+	// are inserted before every IDR and an AUD before every slice anyway.
+	if nalType >= h264.NalSps && nalType <= h264.NalAud {
+		return nil
+	}
+
 	dts := frame.Dts * 90000 / int64(time.Second) // 90000Hz
 	pts := frame.Pts * 90000 / int64(time.Second) // 90000Hz
 	// set fields
